@@ -335,13 +335,65 @@ def clause_c(c: Check):
 
 
 # ---------------------------------------------------------------- d
+ONE_SHOT = ('itertools.chain', 'itertools.chain.from_iterable', 'builtins.map', 'builtins.filter', 'builtins.zip',
+            'builtins.iter', 'builtins.reversed')
+
+
+def _flatten_listing(c: Check, m, f, v, depth=0):
+    """elements of a listing expression: a list / tuple display, a constant naming one, `a + b`, list(..) / tuple(..)
+    / itertools.chain(..) of such"""
+    ix = c.ix
+    c.require(depth <= 5, 'C20-d: listing too deeply nested in %s' % m.name)
+    if isinstance(v, (ast.List, ast.Tuple)):
+        out = []
+        for e in v.elts:
+            if isinstance(e, ast.Starred):
+                out.extend(_flatten_listing(c, m, f, e.value, depth + 1))
+            else:
+                out.append((m, f, e))
+        return out
+    if isinstance(v, ast.BinOp) and isinstance(v.op, ast.Add):
+        return _flatten_listing(c, m, f, v.left, depth + 1) + _flatten_listing(c, m, f, v.right, depth + 1)
+    if isinstance(v, (ast.Name, ast.Attribute)):
+        d = ix.resolve_static(m, f, v)
+        if isinstance(d, VarDef) and isinstance(d.value, (ast.List, ast.Tuple, ast.BinOp, ast.Call)):
+            return _flatten_listing(c, d.module, None, d.value, depth + 1)
+    if isinstance(v, ast.Call):
+        cal = ix.callee(m, f, v)
+        if isinstance(cal, External) and cal.dotted in ('builtins.list', 'builtins.tuple') and len(v.args) == 1:
+            return _flatten_listing(c, m, f, v.args[0], depth + 1)
+        if isinstance(cal, External) and cal.dotted == 'itertools.chain':
+            out = []
+            for a in v.args:
+                out.extend(_flatten_listing(c, m, f, a, depth + 1))
+            return out
+    raise AnalysisError('C20-d: listing %s in %s is not understood' % (unparse(v)[:60], m.name))
+
+
+def _is_one_shot(ix: Index, m, f, v) -> bool:
+    """the expression gives an iterator that can be traversed only once"""
+    if isinstance(v, ast.GeneratorExp):
+        return True
+    if isinstance(v, ast.Call):
+        cal = ix.callee(m, f, v)
+        return isinstance(cal, External) and cal.dotted in ONE_SHOT
+    return False
+
+
 def _list_elts(c: Check, d):
     if isinstance(d, VarDef):
         v, m, f = d.value, d.module, None
     else:
         v, m, f = single_return_expr(d), d.module, d
-    c.require(isinstance(v, (ast.List, ast.Tuple)), 'C20-d: %s is not a literal list' % d.key)
-    return m, f, v.elts
+    c.require(v is not None, 'C20-d: %s is not a listing expression' % d.key)
+    items = _flatten_listing(c, m, f, v)
+    ms = {id(x[0]) for x in items}
+    fs = {id(x[1]) for x in items}
+    if len(ms) <= 1 and len(fs) <= 1 and items:
+        return items[0][0], items[0][1], [x[2] for x in items]
+    # elements from several modules: resolve each where it is written (callers resolve by (m, f) of the first; keep
+    # the elements only when they can be resolved from there too)
+    return m, f, [x[2] for x in items]
 
 
 def _primary(ix: Index, m, f, e, members, depth=0):
@@ -405,6 +457,28 @@ def clause_d(c: Check):
         c.expect(len(documented) == len(set(documented)), 'C20-d', '%s/no-duplicate-entries' % kind,
                  'the help list of %s documents a constant twice' % kind, hm.relpath)
     c.floor('C20-d', 'entity kinds compared', len(defs), 5)
+    # a listing that is traversed more than once (once per partition / per rendering) must be traversable more than
+    # once: a help listing that is a one-shot iterator (itertools.chain, map, filter, a generator) is only all right
+    # when the record that holds the entities of a type materialises it
+    from ..fold import tuple_record_elements
+    eth = ix.cls('exactly_lib.help.contents_structure.entity:EntityTypeHelp')
+    tre = tuple_record_elements(ix, eth)
+    c.require(tre is not None, 'C20-d: EntityTypeHelp is not a tuple record')
+    newf, elts = tre
+    stored = [e for e in elts if any(isinstance(x, ast.Name) and x.id == 'entities' for x in ast.walk(e))]
+    c.require(len(stored) == 1, 'C20-d: the entities element of EntityTypeHelp not found')
+    se = stored[0]
+    materialised = isinstance(se, ast.Call) and isinstance(ix.callee(newf.module, newf, se), External) \
+                   and ix.callee(newf.module, newf, se).dotted in ('builtins.list', 'builtins.tuple', 'builtins.sorted')
+    for kind, dl, hl in ENTITY_KINDS:
+        hd = ix.lookup(hl)
+        v = hd.value if isinstance(hd, VarDef) else single_return_expr(hd)
+        one_shot = _is_one_shot(ix, hd.module, hd if isinstance(hd, FuncDef) else None, v)
+        c.expect(materialised or not one_shot, 'C20-d', '%s/listing-can-be-traversed-again' % kind,
+                 'the help listing of %s is a one-shot iterator (%s) and EntityTypeHelp keeps it as given: the first '
+                 'traversal (the first partition of `help %s`, the first chapter of the manual) drains it and the rest '
+                 'of the entries vanish' % (kind, unparse(v)[:50], kind.split()[0]), hd.loc() if hasattr(hd, 'loc') else hd.module.relpath,
+                 detail='materialised by the record' if materialised else 're-iterable listing')
     # entity type registry of the help
     f = ix.func(AH + ':entity_name_2_entity_configuration')
     r = single_return_expr(f)
